@@ -14,17 +14,21 @@ def _int(rng, t):
     return rng.choice([0, 1, lim - 1, lim - 2, 252, 253, 254, 255, rng.randrange(lim), rng.randrange(lim)]) % lim
 
 
-def _string(rng, n=None, maxlen=12):
+def _string(rng, n=None, maxlen=12, lossless=False):
     if n is None:
         n = rng.randrange(0, maxlen + 1)
+    if lossless:
+        return [rng.choice(b"abcdefgXYZ 0189_-") for _ in range(n)]
     pool = rng.choice(POOLS) if rng.random() < 0.7 else "".join(POOLS)
     return str_codes("".join(rng.choice(pool) for _ in range(n)))
 
 
 class Gen:
-    def __init__(self, types, rng):
+    def __init__(self, types, rng, lossless=False):
         self.types = types
         self.rng = rng
+        self.boundary = False      # next object: every byte/char length field carries as many items as it can
+        self.lossless = lossless   # plain ASCII strings, nothing present behind a missing optional (C01's quantifier; the model has the last word)
 
     def wire_int(self, i):
         t = i["type"]
@@ -45,10 +49,10 @@ class Gen:
         if t in ("string", "encoded_string"):
             if i["tag"] == "field" and i["len"]["k"] == "lit":
                 n = i["len"]["n"]
-                return _string(rng, rng.randrange(0, n + 1) if i["padded"] else n)
+                return _string(rng, rng.randrange(0, n + 1) if i["padded"] else n, lossless=self.lossless)
             if count is not None:
-                return _string(rng, count)
-            return _string(rng)
+                return _string(rng, count, lossless=self.lossless)
+            return _string(rng, lossless=self.lossless)
         if t == "blob":
             return [rng.choice([0, 1, 254, 255, rng.randrange(256)]) for _ in range(rng.randrange(0, 6))]
         ty = self.types[t]
@@ -69,22 +73,36 @@ class Gen:
             t = i["tag"]
             if t == "length":
                 lim = LIMITS[i["type"]] - 1 + i["offset"]
-                lens[i["name"]] = max(i["offset"], 0) + rng.randrange(0, min(7, max(1, lim - max(i["offset"], 0) + 1)))
+                if i["optional"] and rng.random() < 0.25 and i["offset"] <= 0:
+                    lens[i["name"]] = 0
+                    continue
+                if i["type"] in ("byte", "char") and (self.boundary or rng.random() < 0.05) and 0 < lim <= 300:
+                    lens[i["name"]] = rng.choice([lim, lim - 1, lim - 2])           # as many as the length field can carry
+                else:
+                    lens[i["name"]] = max(i["offset"], 0) + rng.randrange(0, min(7, max(1, lim - max(i["offset"], 0) + 1)))
             elif t == "field" and i["name"]:
                 if i["hard"] != NONE:
                     o[i["name"]] = i["hard"]
-                elif i["optional"] and rng.random() < 0.3:
+                elif i["optional"] and (rng.random() < 0.3 or (self.lossless and lens.get("_missing"))):
                     o[i["name"]] = NONE
+                    lens["_missing"] = True
                 else:
                     cnt = lens.get(i["len"]["ref"]) if i["len"]["k"] == "ref" else None
                     o[i["name"]] = self.value(i, cnt)
             elif t == "array":
-                if i["optional"] and rng.random() < 0.3:
+                if i["optional"] and (rng.random() < 0.3 or (self.lossless and lens.get("_missing"))):
                     o[i["name"]] = NONE
+                    lens["_missing"] = True
                 else:
                     n = i["len"]["n"] if i["len"]["k"] == "lit" else lens.get(i["len"]["ref"], rng.randrange(0, 7)) if i["len"]["k"] == "ref" else rng.randrange(0, 7)
+                    if i["optional"] and i["len"]["k"] != "lit" and rng.random() < 0.3:
+                        n = 0          # present but empty (in the middle of an optional chain this is not an "empty tail")
+                        if i["len"]["k"] == "ref":
+                            lens[i["len"]["ref"]] = 0
                     e = dict(i, tag="elem", len={"k": "none", "n": 0, "ref": ""})
                     o[i["name"]] = [self.value(e) for _ in range(n)]
+            elif t == "break":
+                lens.pop("_missing", None)
             elif t == "chunked":
                 self._fill(i["body"], cls, o, lens)
             elif t == "switch":
